@@ -37,13 +37,13 @@ DOCUMENTED = {'TypeError', 'ValueError', 'ConfigError', 'DefaultNSError', 'Defau
 def check(ctx):
     ctx.consult('plssdesc/plss_parse.py', 'plssdesc/plssdesc.py', 'plssdesc/plss_preprocess.py', 'tract/tract.py',
                 'tract/tract_parse.py', 'tract/tract_preprocess.py', 'unpack/unpackers.py', 'config/config.py')
-    _optional_attrs(ctx)
-    _remove_guard(ctx)
-    _group_subscripts(ctx)
-    _int_sites(ctx)
-    _raises(ctx)
-    _at_least_one_tract(ctx)
-    _kwargs(ctx)
+    ctx.attempt(_optional_attrs)
+    ctx.attempt(_remove_guard)
+    ctx.attempt(_group_subscripts)
+    ctx.attempt(_int_sites)
+    ctx.attempt(_raises)
+    ctx.attempt(_at_least_one_tract)
+    ctx.attempt(_kwargs)
 
 
 def _parser_funcs(ctx):
